@@ -467,10 +467,21 @@ class VN:
             if m == "transpose" and not e.args:
                 return self.transpose(self.expr(recv))
             base = self.expr(recv)
+            # own methods: arguments are keyed by the callee's parameter names, so m(a) and m(x=a) normalise alike
+            if self.prog is not None and self.func is not None and isinstance(recv, ast.Name) and recv.id in (self.selfname, "cls"):
+                ba, callee = self.prog.bound_args(self.func, e)
+                if ba is not None:
+                    kk = tuple(sorted((k, self.expr(v).key()) for k, v in ba.items()))
+                    return Poly.atom(("meth", m, base.key()) + kk)
             args = tuple(self.expr(a).key() for a in e.args)
             kk = tuple(sorted((k, self.expr(v).key()) for k, v in kws.items()))
             return Poly.atom(("meth", m, base.key()) + args + kk)
         if isinstance(fn, ast.Name):
+            if self.prog is not None and self.func is not None and fn.id not in ("float", "int", "len", "abs"):
+                ba, callee = self.prog.bound_args(self.func, e)
+                if ba is not None:
+                    kk = tuple(sorted((k, self.expr(v).key()) for k, v in ba.items()))
+                    return Poly.atom(("call", fn.id) + kk)
             args = tuple(self.expr(a).key() for a in e.args)
             kk = tuple(sorted((k, self.expr(v).key()) for k, v in kws.items()))
             if fn.id in ("float", "int") and len(e.args) == 1:
